@@ -55,7 +55,13 @@ func genHistCase(t *rapid.T) *HistCase {
 	}
 	c.Env = g.Env
 	c.ValsA, c.ValsB = map[string]*m.Val{}, map[string]*m.Val{}
-	for name, v := range g.Vals {
+	names := make([]string, 0, len(g.Vals))
+	for name := range g.Vals {
+		names = append(names, name)
+	}
+	sortStringsInPlace(names) // draws below must not depend on map iteration order
+	for _, name := range names {
+		v := g.Vals[name]
 		v = v.Conform(nil)
 		c.ValsA[name] = v
 		c.Env[name] = v.T
